@@ -147,6 +147,8 @@ static Error do_ref(Prog& p, const std::vector<std::string>& t, long& label_out)
     if (ins == "bi")    return a.b(Imm(int64_t(std::stoull(t.at(2)))));
     if (ins == "bli")   return a.bl(Imm(int64_t(std::stoull(t.at(2)))));
     if (ins == "bcondi") return a.b(a64_cc[num(2) % 14], Imm(int64_t(std::stoull(t.at(3)))));
+    if (ins == "adri")  return a.adr(a64::x(uint32_t(num(2) % 31)), Imm(int64_t(std::stoull(t.at(3)))));
+    if (ins == "adrpi") return a.adrp(a64::x(uint32_t(num(2) % 31)), Imm(int64_t(std::stoull(t.at(3)))));
     if (ins == "ldrv")  {
       label_out = num(4);
       uint32_t id = uint32_t(num(3) & 31);
